@@ -51,9 +51,9 @@ def gen_masses(r, m0, fdis, soluble, upd):
     nc = len(m0)
     rel = m0 > 0
     if not soluble:
-        pats = ['full', 'partial', 'partial']
-        if upd:
-            pats += ['zero', 'negative']
+        pats = ['full', 'partial', 'partial', 'partial', 'full', 'zero' if upd else 'partial', 'negative' if upd else 'partial']
+        if r.random() < 0.04:
+            pats = ['zero', 'negative']          # also through properties (biodegraded to nothing / overshoot)
         pat = r.choice(pats)
         if pat == 'full':
             return m0.copy(), pat
@@ -62,8 +62,9 @@ def gen_masses(r, m0, fdis, soluble, upd):
         if pat == 'zero':
             return np.zeros(1), pat
         return np.array([-m0[0] * 10 ** r.uniform(-15, -9)]), pat
-    pat = r.choice(['full', 'partial', 'partial', 'log', 'log', 'threshold', 'threshold', 'exact-threshold', 'some-negative',
-                    'all-below', 'all-below', 'zero', 'all-negative'])
+    pat = r.choice(['full', 'full', 'partial', 'partial', 'partial', 'partial', 'log', 'log', 'log', 'log', 'threshold', 'threshold',
+                    'threshold', 'exact-threshold', 'exact-threshold', 'some-negative', 'some-negative', 'all-below',
+                    'all-below', 'all-below', 'all-below', 'zero', 'all-negative'])
     m = m0.copy()
     if pat == 'partial':
         m = m0 * np.array([r.uniform(0., 1.) for _ in range(nc)])
@@ -151,16 +152,16 @@ def out_tuple(o):
             [float(v) for v in np.atleast_1d(beta)], float(beta_T), float(T))
 
 
-def build_history(ctx, r, idx):
-    """create a real particle, run a random call history on it under the recorder"""
-    from tamoc import dispersed_phases
+def plan_history(r, idx):
+    """draw a particle, its model parameters and the list of calls to make (nothing is run yet, apart from
+    the library's diameter -> mass conversion that fixes the initial masses)"""
     kind = r.choice(['gas', 'gas', 'liquid', 'liquid', 'inert'])
     obj, yk, descr = S.make_dbm_particle(r, kind, nmax=5)
     if kind == 'inert':
-        obj.k_bio = r.choice([0., r.uniform(0., 1e-5)])
-        obj.t_bio = r.choice([0., r.uniform(1., 2000.)])
-        descr['k_bio'], descr['t_bio'] = obj.k_bio, obj.t_bio
-    soluble = bool(obj.issoluble)
+        descr['k_bio'] = r.choice([0., r.uniform(0., 1e-5)])
+        descr['t_bio'] = r.choice([0., r.uniform(1., 2000.)])
+        obj = S.particle_from_descr(descr)
+    soluble = kind != 'inert'
     P, Sa, Ta = S.ambient_state(r)
     T0 = Ta + r.choice([0., 0., r.uniform(0., 30.)])
     de = math.exp(r.uniform(math.log(0.2e-3), math.log(20e-3)))
@@ -180,33 +181,64 @@ def build_history(ctx, r, idx):
     lag = r.random() < 0.6
     plume = r.random() < 0.45
     tbio = [float(v) for v in np.atleast_1d(obj.t_bio)]
-    h = dict(idx=idx, descr=descr, kind=kind, soluble=soluble, plume=plume, m0=[float(v) for v in m0], T0=T0, de=de,
-             K=K, K_T=K_T, fdis=fdis, t_hyd=t_hyd, lag=lag, calls=[], raised=None)
-    ncalls = r.randint(4, 14)
+    planned = []
+    for _ in range(r.randint(4, 14)):
+        upd = plume and r.random() < 0.6
+        Pc = P * r.uniform(0.7, 1.1)
+        Sc = Sa + r.uniform(-0.5, 0.5)
+        Tc = Ta + r.uniform(-1., 1.)
+        m, mp = gen_masses(r, m0, fdis, soluble, upd)
+        T, Tp = gen_T(r, Tc)
+        t, tp = gen_t(r, t_hyd, tbio if upd else [])
+        planned.append(dict(upd=upd, m=[float(v) for v in m], T=float(T), P=float(Pc), Sa=float(Sc), Ta=float(Tc),
+                            t=float(t), pats=(mp, Tp, tp)))
+    return dict(idx=idx, descr=descr, kind=kind, soluble=soluble, plume=plume, m0=[float(v) for v in m0], T0=float(T0),
+                de=de, K=float(K), K_T=float(K_T), fdis=float(fdis), t_hyd=float(t_hyd), lag=bool(lag),
+                ctor=(float(P), float(Sa), float(Ta)), planned=planned), obj
+
+
+def run_history(ctx, spec, obj):
+    """run the planned calls on a REAL SingleParticle / PlumeParticle under the recorder.
+    Everything the model and the predicates are told about the particle (Params) is what WE handed to the
+    constructor (spec), never read back from the object after the calls."""
+    from tamoc import dispersed_phases
+    h = dict(spec)
+    h['calls'] = []
+    h['raised'] = None
+    m0 = np.array(spec['m0'], dtype=float)
+    K, K_T, fdis, t_hyd, lag, T0 = spec['K'], spec['K_T'], spec['fdis'], spec['t_hyd'], spec['lag'], spec['T0']
+    kb = [float(v) for v in np.atleast_1d(np.array(obj.k_bio, dtype=float))]
+    tb = [float(v) for v in np.atleast_1d(np.array(obj.t_bio, dtype=float))]
+    h['kbio0'], h['tbio0'] = kb, tb
+    # Particle17.Params without K_T: soluble K fdis tHyd m0 nc lag kbio tbio
+    h['params'] = [int(spec['soluble']), K, fdis, t_hyd, m0.copy(), len(m0) if spec['soluble'] else 1, int(lag), kb, tb]
     with S.quiet(), S.Recorder(obj) as rec:
-        def do(upd, m, T, Pc, Sc, Tc, t, pats, first=False):
+        def do(c, first=False):
             a, b = rec.mark()
-            m_in = np.array(m, dtype=float, copy=True)
-            c = dict(upd=upd, m=[float(v) for v in m_in], T=float(T), P=float(Pc), Sa=float(Sc), Ta=float(Tc),
-                     t=float(t), pats=pats, KT_before=float(h['sp'].K_T) if not first else float(K_T))
+            m_in = np.array(c['m'], dtype=float, copy=True)
+            c = dict(c)
             try:
                 if first:
-                    h['sp'] = dispersed_phases.PlumeParticle(obj, m0.copy(), T0, 1.5, 0.9, Pc, Sc, Tc, K, K_T, fdis,
-                                                             t_hyd, lag)
+                    h['sp'] = dispersed_phases.PlumeParticle(obj, m0.copy(), T0, 1.5, 0.9, c['P'], c['Sa'], c['Ta'], K, K_T,
+                                                             fdis, t_hyd, lag)
                     sp = h['sp']
                     o = (sp.us, sp.rho_p, sp.A, sp.Cs, sp.beta, sp.beta_T, sp.T)
                     c['kbio'] = [float(v) for v in np.atleast_1d(sp.k_bio)]
-                elif upd:
+                elif c['upd']:
                     sp = h['sp']
-                    sp.update(m_in, T, Pc, Sc, Tc, t)
+                    sp.update(m_in, c['T'], c['P'], c['Sa'], c['Ta'], c['t'])
                     o = (sp.us, sp.rho_p, sp.A, sp.Cs, sp.beta, sp.beta_T, sp.T)
                     c['kbio'] = [float(v) for v in np.atleast_1d(sp.k_bio)]
                 else:
-                    o = h['sp'].properties(m_in, T, Pc, Sc, Tc, t)
+                    o = h['sp'].properties(m_in, c['T'], c['P'], c['Sa'], c['Ta'], c['t'])
                     c['kbio'] = []
-            except Exception as e:          # the library refused the state: not this property's business (C20)
-                h['raised'] = '%s: %s' % (type(e).__name__, str(e)[:100])
-                ctx.count('library raised')
+            except Exception as e:
+                # the code under test raised on an input of the quantifier: that IS a failure of the property
+                # ("returns ... for every particle, state and history"), never a skip
+                site = S.raise_site(e)
+                h['raised'] = site
+                c['raised'] = '%s: %s' % (site, str(e)[:200])
+                h['calls'].append(c)
                 return False
             a2, b2 = rec.mark()
             c['lib'] = rec.lib[a] if a2 > a else None
@@ -217,23 +249,22 @@ def build_history(ctx, r, idx):
             c['KT'] = float(h['sp'].K_T)
             h['calls'].append(c)
             return True
-        if plume:
-            if not do(True, m0, T0, P, Sa, Ta, 0., ('ctor', 'ctor', 'ctor'), first=True):
-                return h
+        ok = True
+        if spec['plume']:
+            P, Sa, Ta = spec['ctor']
+            ok = do(dict(upd=True, m=spec['m0'], T=T0, P=P, Sa=Sa, Ta=Ta, t=0., pats=('ctor', 'ctor', 'ctor')), first=True)
         else:
             h['sp'] = dispersed_phases.SingleParticle(obj, m0.copy(), T0, K, K_T, fdis, t_hyd, lag)
-        for _ in range(ncalls):
-            upd = plume and r.random() < 0.6
-            Pc = P * r.uniform(0.7, 1.1)
-            Sc = Sa + r.uniform(-0.5, 0.5)
-            Tc = Ta + r.uniform(-1., 1.)
-            m, mp = gen_masses(r, m0, fdis, soluble, upd)
-            T, Tp = gen_T(r, Tc)
-            t, tp = gen_t(r, t_hyd, tbio if upd else [])
-            if not do(upd, m, T, Pc, Sc, Tc, t, (mp, Tp, tp)):
-                break
-    h['params'] = S.params_args(h['sp'])
+        if ok:
+            for c in spec['planned']:
+                if not do(c):
+                    break
     return h
+
+
+def build_history(ctx, r, idx):
+    spec, obj = plan_history(r, idx)
+    return run_history(ctx, spec, obj)
 
 
 # ---------------------------------------------------------------------------
@@ -243,10 +274,15 @@ def build_history(ctx, r, idx):
 NAN = float('nan')
 
 
+def good_calls(h):
+    """the calls that returned (a raising call ends its history and is reported by the predicates)"""
+    return [c for c in h['calls'] if not c.get('raised')]
+
+
 def history_line(h):
     args = list(h['params'])
     args.insert(2, float(h['K_T']))          # soluble K KT0 fdis tHyd m0 nc lag kbio tbio
-    for c in h['calls']:
+    for c in good_calls(h):
         if c['lib'] is not None:
             rho_p, us, A, Cs, beta, beta_T = S.lib_answer(h['soluble'], c['lib'][1])
         else:
@@ -259,10 +295,11 @@ def history_line(h):
 def compare_history(ctx, h, resp, worst):
     """returns list of disagreement strings"""
     bad = []
-    if not isinstance(resp, list) or len(resp) != 17 * len(h['calls']):
+    calls = good_calls(h)
+    if not isinstance(resp, list) or len(resp) != 17 * len(calls):
         return ['driver answered %r' % (resp[:2] if isinstance(resp, (list, tuple)) else resp,)]
     tol = TOL['gen_vs_source']
-    for j, c in enumerate(h['calls']):
+    for j, c in enumerate(calls):
         (KT, asksLib, asksSw, qm, qT, clean, us, rhoP, A, Cs, beta, betaT, T, kbio, swT, swS, swP) = resp[17 * j:17 * j + 17]
         o = c['out']
 
@@ -309,16 +346,17 @@ def compare_history(ctx, h, resp, worst):
 # ---------------------------------------------------------------------------
 
 def predicates(ctx, h):
+    """the PROPERTY (not the code) evaluated on every real output of one history"""
     from tamoc import seawater
     m0 = np.array(h['m0'])
     rel = m0 > 0
     K, fdis, t_hyd = h['K'], h['fdis'], h['t_hyd']
     kt = h['K_T']                  # reference trace of the persistent flag, from the statement
-    sp = h['sp']
-    tbio = np.atleast_1d(np.array(sp.particle.t_bio, dtype=float))
-    kb0 = np.atleast_1d(np.array(sp.particle.k_bio, dtype=float))
+    tbio = np.array(h['tbio0'], dtype=float)      # read from the dbm object BEFORE the wrapper was built
+    kb0 = np.array(h['kbio0'], dtype=float)
+    nc = len(m0) if h['soluble'] else 1
     base = dict(particle=h['descr'], plume=h['plume'], m0=h['m0'], K=K, K_T0=h['K_T'], fdis=fdis, t_hyd=t_hyd,
-                lag_time=h['lag'], T0=h['T0'])
+                lag_time=h['lag'], T0=h['T0'], ctor=list(h['ctor']))
 
     def viol(key, what, j, **kw):
         case = dict(base)
@@ -329,6 +367,10 @@ def predicates(ctx, h):
 
     for j, c in enumerate(h['calls']):
         ctx.evaluations += 1
+        if c.get('raised'):
+            ctx.count('code under test raised')
+            viol('raises:' + c['raised'].split(': ')[0], 'properties/update raised on an input of the quantifier: ' + c['raised'], j)
+            break
         us, rho_p, A, Cs, beta, beta_T, Tret = c['out']
         m_in = np.array(c['m'])
         shortcut = c['upd'] and not (np.sum(m_in) > 0.)
@@ -336,14 +378,13 @@ def predicates(ctx, h):
         ctx.count('mass:' + c['pats'][0])
         ctx.count('temp:' + c['pats'][1])
         ctx.count('age:' + c['pats'][2])
-        ctx.nontrivial.add((h['kind'], c['upd'], c['pats'], kt == 0., tuple(float('%.6g' % v) for v in c['m'][:2])))
+        ctx.nontrivial.add((h['kind'], c['upd'], tuple(c['pats']), kt == 0., tuple(float('%.6g' % v) for v in c['m'][:2])))
         rho_amb = float(seawater.density(c['Ta'], c['Sa'], c['P']))
         if shortcut:
-            # zero-mass shortcut: flag untouched, library not consulted
-            nc = len(sp.composition)
+            # zero-mass shortcut: neutral state, flag untouched, library not consulted
             ok = (us == 0. and rho_p == rho_amb and A == 0. and Cs == [0.] * nc and beta == [0.] * nc
                   and beta_T == 0. and Tret == c['Ta'] and c['kbio'] == [0.] * nc and c['lib'] is None
-                  and c['KT'] == c['KT_before'])
+                  and c['KT'] == kt)
             if not ok:
                 viol('zero-mass-shortcut', 'PlumeParticle.update with non-positive total mass does not return the neutral state',
                      j, out=c['out'], kbio=c['kbio'], K_T=c['KT'])
@@ -378,7 +419,9 @@ def predicates(ctx, h):
             viol('beta_T-scaling', 'heat-transfer coefficient is not K_T * library value', j, beta_T=beta_T, K_T=kt, library=betaT_l)
         if not close(A, A_l, 0.):
             viol('area-changed', 'surface area differs from the library value', j, A=A, library=A_l)
-        allfin = True
+        # "buoyant particle": the library's own density of the particle is below the ambient density (a NaN
+        # library density is NOT excused)
+        sinking = rho_l >= rho_amb
         if h['soluble']:
             mc = np.where(m_in < 0, 0., m_in)
             if not close([float(v) for v in np.atleast_1d(am)], [float(v) for v in mc], 0.):
@@ -400,36 +443,48 @@ def predicates(ctx, h):
                      beta=beta, expected=exp_beta, library=[float(v) for v in beta_l], frac=[float(mc[i] / m0[i]) if rel[i] else None for i in range(len(m0))])
             if not close(Cs, [float(v) for v in Cs_l], 0.):
                 viol('Cs-changed', 'solubilities differ from the library values', j, Cs=Cs)
-            # ---- dissolved-particle neutralisation
-            zero_all = not (mc > 0).any()
-            cond = (sum(0. if ((mc[i] / m0[i]) < fdis) else beta_l[i] for i in range(len(m0)) if rel[i]) == 0.
-                    and np.sum(mc[rel]) > np.sum(mc[~rel]))
-            if cond:
-                ctx.count('neutralised')
-                if not (us == 0. and rho_p == rho_amb):
-                    viol('neutralisation', 'dissolved particle (all released components cut, released mass dominant) does not report zero slip and ambient density',
-                         j, us=us, rho_p=rho_p, ambient=rho_amb)
-                if c['sw'] is None:
-                    viol('neutralisation', 'seawater.density not consulted for the dissolved particle', j)
-            else:
-                ctx.count('buoyant')
-                if all_rel_cut and not zero_all:
-                    ctx.count('all released components cut but unreleased (stripped) mass dominates: stays a particle')
-                if not (close(us, us_l, 0.) and close(rho_p, rho_l, 0.)):
-                    viol('neutralisation-spurious', 'slip velocity / density differ from the library values although the dissolved-particle condition does not hold',
-                         j, us=us, rho_p=rho_p, library=[us_l, rho_l])
             vals = [us, rho_p, A, beta_T, Tret] + Cs + beta
             allfin = all(math.isfinite(v) for v in vals)
-            if not allfin:
+            zero_all = not (mc > 0).any()
+            if all_rel_cut:
+                # ---- the PROPERTY: once all released components are dissolved (cut off) the wrapper reports zero
+                #      slip and neutral density, and everything returned is finite
+                neutral_ok = (us == 0. and rho_p == rho_amb)
+                ctx.count('all released cut: ' + ('neutralised' if neutral_ok else 'NOT neutralised'))
                 if zero_all:
-                    ctx.count('all masses zero -> non-finite')
-                    viol('properties-nan-all-masses-zero',
-                         'fully dissolved particle (every mass zero or a negative overshoot): properties returns non-finite slip/density/area instead of zero slip and ambient density',
-                         j, out=c['out'])
-                elif rho_l >= rho_amb:
-                    ctx.count('soluble particle not buoyant here: finiteness not demanded')
-                else:
-                    viol('nonfinite-output', 'non-finite physical quantity returned for a buoyant particle with positive mass', j, out=c['out'])
+                    ctx.count('all masses exactly zero after clipping')
+                    if not allfin:
+                        viol('properties-nan-all-masses-zero',
+                             'fully dissolved particle (every mass exactly zero after clipping): properties returns non-finite values instead of zero slip, ambient density and finite outputs',
+                             j, out=c['out'])
+                    elif not neutral_ok:
+                        viol('not-neutralised-all-masses-zero', 'fully dissolved particle (every mass zero): no zero slip / ambient density', j, out=c['out'])
+                elif not neutral_ok:
+                    if np.sum(mc[rel]) <= np.sum(mc[~rel]):
+                        ctx.count('all released cut, unreleased (stripped) mass dominates')
+                        viol('not-neutralised-stripped-mass-dominant',
+                             'every released component is below its dissolution threshold (beta = 0) but the particle still reports non-zero slip and a non-ambient density, because the mass of the unreleased (zero-initial-mass) components is not smaller than that of the released ones',
+                             j, us=us, rho_p=rho_p, ambient=rho_amb, released_mass=float(np.sum(mc[rel])), unreleased_mass=float(np.sum(mc[~rel])))
+                    else:
+                        viol('neutralisation', 'all released components are dissolved (cut off) but the particle does not report zero slip and ambient density',
+                             j, us=us, rho_p=rho_p, ambient=rho_amb)
+                elif not allfin:
+                    if sinking:
+                        ctx.count('soluble particle not buoyant here (library density >= ambient): finiteness not demanded')
+                    else:
+                        viol('nonfinite-output', 'non-finite quantity returned for a dissolved (neutralised) buoyant particle with positive mass', j, out=c['out'])
+            else:
+                ctx.count('not all released cut: library values pass through')
+                if not (close(us, us_l, 0.) and close(rho_p, rho_l, 0.)):
+                    viol('neutralisation-spurious', 'slip velocity / density differ from the library values although a released component is still above its dissolution threshold',
+                         j, us=us, rho_p=rho_p, library=[us_l, rho_l])
+                if not allfin:
+                    if sinking:
+                        ctx.count('soluble particle not buoyant here (library density >= ambient): finiteness not demanded')
+                    else:
+                        viol('nonfinite-output', 'non-finite physical quantity returned for a buoyant particle with positive mass', j, out=c['out'])
+            if sinking:
+                allfin = False
         else:
             if beta != [] or Cs != []:
                 viol('inert-has-transfer', 'inert particle returns mass-transfer data', j, beta=beta, Cs=Cs)
@@ -437,11 +492,17 @@ def predicates(ctx, h):
                 viol('inert-changed', 'inert particle: slip/density differ from library', j)
             vals = [us, rho_p, A, beta_T, Tret]
             allfin = all(math.isfinite(v) for v in vals)
-            if rho_l >= rho_amb:
-                ctx.count('inert particle not buoyant here: finiteness not demanded')
+            if sinking:
+                ctx.count('inert particle not buoyant here (density >= ambient): finiteness not demanded')
                 allfin = False
             elif not allfin:
-                viol('nonfinite-output', 'non-finite physical quantity returned for a buoyant inert particle with positive mass', j, out=c['out'])
+                if m_in[0] <= 0.:
+                    ctx.count('inert particle with non-positive mass -> non-finite')
+                    viol('properties-nan-inert-nonpositive-mass',
+                         'inert particle whose mass is zero or a slightly negative solver overshoot: properties returns non-finite slip velocity / heat-transfer coefficient',
+                         j, out=c['out'])
+                else:
+                    viol('nonfinite-output', 'non-finite physical quantity returned for a buoyant inert particle with positive mass', j, out=c['out'])
         if allfin and not all(v >= 0. for v in vals):
             viol('negative-output', 'negative physical quantity returned', j, out=c['out'])
         # ---- biodegradation lag (update stores the rates)
@@ -557,44 +618,90 @@ def biorate_part(ctx, lean_ok):
 
 # ---------------------------------------------------------------------------
 
+FLOORS_QUICK = {'histories': 150, 'calls': 1500, 'all released cut: neutralised': 100, 'not all released cut: library values pass through': 400,
+                'component cut': 500, 'component kept': 500, 'component unreleased': 150, 'K_T switch fired': 50, 'status clean': 150,
+                'status dirty': 400, 'call:update:shortcut': 30, 'mass:exact-threshold': 30, 'temp:edge': 150, 'age:hyd-exact': 50}
+
+
 def run(ctx, lean_ok):
     r = ctx.rng
     nh = ctx.n(220, 6000)
     hists = []
     for i in range(nh):
         h = build_history(ctx, r, i)
-        if h.get('sp') is None or not h['calls']:
-            continue
         hists.append(h)
         ctx.count('particle:' + h['kind'] + (':plume' if h['plume'] else ':single'))
         if any(v == 0. for v in h['m0']):
             ctx.count('particle with unreleased components')
     for h in hists[:3]:
-        c = h['calls'][-1]
+        calls = good_calls(h)
+        if not calls:
+            continue
+        c = calls[-1]
         ctx.sample({'particle': h['descr'], 'K': h['K'], 'K_T0': h['K_T'], 'fdis': h['fdis'], 't_hyd': h['t_hyd'],
-                    'ncalls': len(h['calls']), 'last_call': {k: c[k] for k in ('upd', 'm', 'T', 'Ta', 't')},
-                    'last_out': c['out'], 'K_T_trace': [x['KT'] for x in h['calls']]})
+                    'ncalls': len(calls), 'last_call': {k: c[k] for k in ('upd', 'm', 'T', 'Ta', 't')},
+                    'last_out': c['out'], 'K_T_trace': [x['KT'] for x in calls]})
     # ---- property predicates on the real outputs (always) -------------------------------
     for h in hists:
         predicates(ctx, h)
+    # ---- floors: the generator must have reached every regime the statement names ----------
+    ncalls_all = sum(len(good_calls(h)) for h in hists)
+    scale = 1 if not ctx.thorough else 20
+    have = dict(ctx.hist)
+    have['histories'] = sum(1 for h in hists if good_calls(h))
+    have['calls'] = ncalls_all
+    short = {k: (have.get(k, 0), v * scale) for k, v in FLOORS_QUICK.items() if have.get(k, 0) < v * scale}
+    ctx.oblige('coverage floors: %d histories, %d returned calls, every branch counter above its floor' % (have['histories'], ncalls_all),
+               not short, 'below floor (have, want): %r' % short)
     # ---- oracle-table correspondence over the histories ---------------------------------
     if lean_ok:
-        lines = [history_line(h) for h in hists]
+        hs = [h for h in hists if good_calls(h)]
+        lines = [history_line(h) for h in hs]
         out = run_driver(ctx, 'C17', lines)
         if out is not None:
             worst = [0.]
             nbad = 0
             ncalls = 0
-            for h, o in zip(hists, out):
-                ncalls += len(h['calls'])
+            for h, o in zip(hs, out):
+                ncalls += len(good_calls(h))
                 bad = compare_history(ctx, h, o, worst)
                 if bad:
                     nbad += 1
                     if nbad <= 3:
                         ctx.broken.append(('correspondence', 'Particle17 history vs real particle object', '; '.join(bad[:4])))
             ctx.oblige('correspondence Particle17.run (questions, outputs, K_T trace) == real SingleParticle/PlumeParticle over %d histories / %d calls (rel %g)'
-                       % (len(hists), ncalls, TOL['gen_vs_source']), nbad == 0, '%d histories disagree' % nbad)
+                       % (len(hs), ncalls, TOL['gen_vs_source']), nbad == 0, '%d histories disagree' % nbad)
             ctx.notes.append('histories: worst relative difference model vs code %.3g' % worst[0])
     density_part(ctx, lean_ok)
     biorate_part(ctx, lean_ok)
     ctx.notes.append('finiteness / non-negativity of the library (EOS) outputs is sampled on the generated histories only (oracle in the proofs)')
+    ctx.notes.append('"buoyant particle" is read as: the library density of the particle is below the ambient density; for sinking particles '
+                     '(e.g. CO2-rich drops at depth) the statement demands no finiteness and none is checked (counted in the histogram)')
+
+
+def replay(ctx, path):
+    """re-run the failing history of a replay file on the real code and re-evaluate the predicates"""
+    import json
+    d = json.load(open(path))
+    case = d['case']
+    if 'history' not in case:
+        print('replay: %s is not a call-history case (key %s); inputs:' % (path, d.get('key')))
+        print(json.dumps(case, indent=1)[:3000])
+        return 0
+    descr = case['particle']
+    obj = S.particle_from_descr(descr)
+    hist = case['history']
+    planned = [dict(c, pats=('replay', 'replay', 'replay')) for c in hist]
+    if case['plume']:
+        planned = planned[1:]                  # the first entry is the constructor's own update call
+    spec = dict(idx=0, descr=descr, kind=descr['kind'], soluble=descr['kind'] != 'inert', plume=case['plume'], m0=case['m0'],
+                T0=case['T0'], de=None, K=case['K'], K_T=case['K_T0'], fdis=case['fdis'], t_hyd=case['t_hyd'],
+                lag=case['lag_time'], ctor=tuple(case.get('ctor', (hist[0]['P'], hist[0]['Sa'], hist[0]['Ta']))), planned=planned)
+    h = run_history(ctx, spec, obj)
+    for j, c in enumerate(h['calls']):
+        print('call %d %s m=%r T=%r Ta=%r t=%r ->' % (j, 'update' if c['upd'] else 'properties', c['m'], c['T'], c['Ta'], c['t']),
+              c.get('raised') or (c['out'], 'K_T', c['KT']))
+    predicates(ctx, h)
+    keys = sorted(set(v['key'] for v in ctx.violations))
+    print('replay of key %r: predicates now report %r' % (d.get('key'), keys))
+    return 1 if d.get('key') in keys else 0
